@@ -808,6 +808,13 @@ class C16(Monitor):
                     crash = node.crash and (node.crash["type"], node.crash["where"])
                     self.bad("node_teardown_count", "node teardown command did not run exactly once for a batch that ran to its end",
                              f"{nt} runs on {node.host}; node exit={node.exit_code} crash={crash}")
+                if sc.mode == "hpc" and ran_to_end and launched and ("node_setup" in sc.hooks or "node_teardown" in sc.hooks):
+                    j = w.node_job(node)
+                    dist = j is not None and j.run_opts.get("distributed_submitter")
+                    if dist and not any(c.role == "try-submit-jobs" for c in node.children):
+                        self.bad("closing_round_skipped",
+                                 "a batch with node lifecycle commands did not run its closing try-submit-jobs (its results are not collected)",
+                                 f"node {node.host} exit={node.exit_code}; node hooks rc={[(x['hook'], x['rc']) for x in mine]}")
                 if node.crash and ("node_setup" in sc.hooks or "node_teardown" in sc.hooks) and sc.mode == "hpc":
                     self.bad("node_hook_crash", "batch with node lifecycle commands crashed",
                              f"{node.crash['type']} at {node.crash['where']}: {node.crash['msg'][:120]}")
@@ -822,6 +829,7 @@ class C18World(Monitor):
         self.last_squeue = {}   # root vp id -> rows of last full squeue
         self.ids_before = {}
         self.garbage = []
+        self.ids_read = {}
 
     def on_record(self, rec):
         seq, vt, kind, vpid, d = rec
@@ -832,6 +840,15 @@ class C18World(Monitor):
                          f"squeue attempt {d.get('attempt')}")
             if d.get("ok") and d.get("jid") is None:
                 self.last_squeue[vpid] = {i: s for i, s in d.get("rows", [])}
+        elif kind == "lock_release" and d.get("path", "").endswith("cluster_config.json.lock") \
+                and w.vprocs[vpid].role == "show-status":
+            sub = self.ctx.sub_for_path(d["path"])
+            if sub is not None:
+                try:
+                    _, js = state.read_status(sub.out)
+                    self.ids_read[vpid] = list((js or {}).get("hpc_job_ids", []))
+                except state.Unparsable:
+                    pass
         elif kind == "fs" and d.get("op") == "create" and d.get("path", "").endswith("/submitter.lock"):
             # a submitter round starts acting: remember the persisted ids before it
             sub = self.ctx.sub_for_path(d["path"])
@@ -865,11 +882,9 @@ class C18World(Monitor):
                 # show-status offers the recovery only if every persisted id is gone from the scheduler
                 sub = next((s_ for s_ in self.ctx.subs.values() if s_.out in vp.argv), None)
                 if sub is not None:
-                    try:
-                        _, js = state.read_status(sub.out)
-                    except state.Unparsable:
-                        js = None
-                    held = [i for i in (js or {}).get("hpc_job_ids", []) if w.slurm.holds(i)
+                    # the ids show-status itself read (under the lock), not what is persisted by now
+                    ids = self.ids_read.get(vp.parent.id, [])
+                    held = [i for i in ids if w.slurm.holds(i)
                             and w.slurm.jobs[str(i)].state not in ("COMPLETED",)]
                     w.probe("show_status_recovery")
                     if held:
@@ -1003,13 +1018,26 @@ class C20(Monitor):
             if sub is None:
                 return
             base = p[len(sub.outrel) + 1:]
-            if base.startswith("events/") and d.get("op") == "create" and sub.outrel not in self.consolidated:
+            if base.startswith("events/") and d.get("op") in ("remove", "unlink"):
+                self.consolidated.pop(sub.outrel, None)
+        elif kind == "consolidate_begin":
+            # the one-shot consolidation reads the per-process event files at this instant
+            sub = self.ctx.sub_for_path(d.get("out"))
+            if sub is not None and sub.outrel not in self.consolidated:
+                # exactly what the consolidation can see: the lines of the top-level *events.log files
+                import collections
                 import glob
 
-                pend = {self.w.rel(x) for x in glob.glob(os.path.join(sub.out, "job-outputs", "*", "events.log"))}
-                self.consolidated[sub.outrel] = (seq, pend)
-            elif base.startswith("events/") and d.get("op") in ("remove", "unlink"):
-                self.consolidated.pop(sub.outrel, None)
+                vis = collections.Counter()
+                for p in glob.glob(os.path.join(sub.out, "*events.log")):
+                    try:
+                        with open(p) as f:
+                            for ln in f.read().split("\n"):
+                                if ln:
+                                    vis[ln] += 1
+                    except OSError:
+                        pass
+                self.consolidated[sub.outrel] = (seq, vis)
 
     def finish(self):
         ctx = self.ctx
@@ -1076,10 +1104,15 @@ class C20(Monitor):
             if path and "/job-outputs/" in path and ev.get("source") in killed_hosts_jobs:
                 late.setdefault(ev["name"], []).append(dict(ev, _optional=True))
                 continue
-            if cons is not None and (seq > cons[0] or path in cons[1]):
-                # written, or moved into a node's event file, only after the one-shot consolidation
-                late.setdefault(ev["name"], []).append(ev)
-                continue
+            if cons is not None:
+                vis = cons[1]
+                if vis.get(line, 0) > 0:
+                    vis[line] -= 1
+                else:
+                    # not in any per-process event file when the one-shot consolidation read them:
+                    # written later, or still on its way from a job's file into its node's file
+                    late.setdefault(ev["name"], []).append(ev)
+                    continue
             truth.setdefault(ev["name"], []).append(ev)
         try:
             summ = EventsSummary(sub.out)
